@@ -589,8 +589,8 @@ RULES.append(("C12.i", "must-pass-through: no path around the effects this prope
 
 def rule_commit(ctx):
     from . import mustpass
-    for g, floor in [('mailbox-signals', 12), ('lockfree', 25)]:
-        mustpass.commit_group(ctx, g, floor)
+    for spec in [('mailbox-signals', 12), ('lockfree', 7, r'^channel::queue::')]:
+        mustpass.commit_group(ctx, *spec)
 
 
 RULES.append(("C12.j", "branch-commit: between the decision to perform an effect and the effect there is no way out", rule_commit))
